@@ -116,13 +116,58 @@ def _tree_cases(rng, root, all_subsets: bool):
                    desc + f" sort_keys={s}", sig=f"edges|sorted={s}")
 
 
+def deep_chain_cases(rng):
+    """a tree nested deeper than the interpreter's recursion limit (built bottom-up, no recursion): the traversals are
+    documented as generators over an explicit work list and must still enumerate every position"""
+    import sys
+    depth = sys.getrecursionlimit() * 2 + rng.randint(0, 200)
+    n = zoo.Leaf(v=1)
+    chain = [n]
+    for i in range(depth):
+        n = zoo.Un(n) if i % 3 else zoo.Opt(n)
+        chain.append(n)
+    root = chain[-1]
+    want = list(reversed(chain[:-1]))           # pre-order below the root = the chain downwards
+    fail = None
+    try:
+        got = [i.node for i in root.dfs()]
+        if len(got) != len(want) or any(a is not b for a, b in zip(got, want)):
+            fail = "dfs() does not enumerate the chain downwards"
+        got = [i.node for i in root.dfs(bottom_up=True)]
+        if fail is None and (len(got) != len(want) or any(a is not b for a, b in zip(got, reversed(want)))):
+            fail = "dfs(bottom_up=True) does not enumerate the chain upwards"
+        got = [i.node for i in root.bfs()]
+        if fail is None and (len(got) != len(want) or any(a is not b for a, b in zip(got, want))):
+            fail = "bfs() does not enumerate the chain level by level"
+        cut = want[depth // 2]
+        got = [i.node for i in root.dfs(prune=lambda i: i.node is cut, filter=lambda i: isinstance(i.node, zoo.Opt) or i.node is cut)]
+        exp = [x for x in want[:depth // 2 + 1] if isinstance(x, zoo.Opt) or x is cut]
+        if fail is None and (len(got) != len(exp) or any(a is not b for a, b in zip(got, exp))):
+            fail = "dfs(prune, filter) wrong on the deep chain"
+        got = list(root.gather(zoo.Leaf))
+        if fail is None and not (len(got) == 1 and got[0] is chain[0]):
+            fail = "gather(Leaf) wrong on the deep chain"
+        for info in list(root.dfs())[:50]:
+            if getattr(info.parent, info.field.name) is not info.node or info.findex is not None:
+                fail = fail or "position info wrong on the deep chain"
+    except RecursionError:
+        fail = "traversal raised RecursionError on a tree deeper than the recursion limit"
+    except Exception as e:  # noqa
+        fail = f"traversal raised {type(e).__name__} on a deep chain"
+    yield Case("deep-chain", None, None, True, f"chain of {depth} nested single-child nodes", oracle_fail=fail,
+               sig="dfs|deep-chain")
+    del chain, want, root, n
+
+
 def cases(rng: random.Random, tier: str):
+    yield from deep_chain_cases(rng)
     n_trees = 250 if tier == "quick" else 6000
     for k in range(n_trees):
         g = zoo.Gen(rng, origins=False)
         budget = rng.choice([2, 3, 5, 8, 12, 20, 40]) if tier == "quick" else rng.choice([2, 3, 5, 8, 12, 20, 40, 120, 400])
         root = g.tree(budget)
-        yield from _tree_cases(rng, root, False)
+        with zoo.config_variation(rng):
+            yield from _tree_cases(rng, root, False)
     if tier == "thorough":
         # exhaustive predicates on small trees
         cnt = 0
